@@ -52,7 +52,7 @@ def _worker(args):
             REG.contracts[qualname] = saved
     else:
         rep = verify_function(REG, qualname, tier)
-    return {"qualname": qualname, "file": rep.file, "ast_hash": rep.ast_hash, "lines": rep.lines,
+    return {"qualname": qualname, "file": rep.file, "ast_hash": rep.ast_hash, "lines": rep.lines, "source": getattr(rep, "source", None),
             "obligations": rep.obligations, "error": rep.error, "error_kind": rep.error_kind,
             "assumptions": rep.assumptions, "dropped": rep.dropped, "inlined": rep.inlined, "paths": rep.paths,
             "secs": rep.secs, "sanity": bool(extra_false), "feas_checks": rep.feas_checks}
@@ -309,6 +309,12 @@ def finish(REG, prop, tier, seed, t0, reports, sanity, extra, props_mod):
                    "functions": {r["qualname"]: r["ast_hash"] for r in reports},
                    "discharged": sorted({_stable_id(o["id"]) for o in named if o["status"] == "discharged"})},
                   open(os.path.join(HERE, "contracts", "baseline", f"{prop}.json"), "w"), indent=1)
+        sp = os.path.join(HERE, "contracts", "baseline", "_sources.json")
+        srcs = json.load(open(sp)) if os.path.exists(sp) else {}
+        for r in reports:
+            if r.get("source"):
+                srcs[r["qualname"]] = {"hash": r["ast_hash"], "source": r["source"]}
+        json.dump(srcs, open(sp, "w"), indent=1, sort_keys=True)
     return 0
 
 
